@@ -514,7 +514,7 @@ pub fn run(p: &Params, rep: &mut Report) {
         // one wrapper query that creates more than 2^20 (2^21) terms on the thread-local manager
         super::ladder::big_wrapper_query(rep, if p.thorough { 1_150_000 } else { 600_000 }, p.seed);
         // operand and class counts beyond 2^10 (and, for one term, beyond 2^16)
-        for n in if p.thorough { vec![1100u32, 2100, 4200, 1300 + (p.seed as u32 * 37) % 1700] } else { vec![1100u32, 1030 + (p.seed as u32 * 37) % 900] } {
+        for n in if p.thorough { vec![1100u32, 2100, 4200, 1300 + (p.seed as u32 * 37) % 1700] } else { vec![1100u32, 301 + (p.seed as u32 * 397) % 1700] } {
             super::ladder::wide_union(rep, "C07", n, p.seed);
         }
     }
